@@ -22,7 +22,8 @@ import (
 //   block = ';' list of lines <namehex>|<arghex>,<arghex>,…
 //   out   = err:<class> | min TAB max TAB ciphers TAB curves TAB prefer TAB clientAuth TAB clientCerts TAB alpn TAB disableSNI
 //
-// c06.listener  aesni  block     the same Casketfile through the loader front end AND MakeServers/NewServer
+// c06.listener  aesni  block  block2   the same Casketfile (block2 != "-": plus a second site a.test:8443/admin
+//   with `tls self_signed { block2 }`, sharing the host name) through the loader front end AND MakeServers/NewServer
 //   (the listener's tls.Config as casket builds it), then a REAL handshake over net.Pipe with
 //   server name a.test, versions TLS 1.0..1.3 offered, the certificate being the self-signed one
 //   setupTLS generated:   out = err | fail | ok TAB version TAB sanhex TAB requested
@@ -103,17 +104,23 @@ func c06EncBlock(ls []c06Line) string {
 }
 
 // c06Load runs the loader front end on the one-site Casketfile and returns the site's config.
-func c06Load(block []c06Line) (*casket.Instance, casket.Context, *httpserver.SiteConfig, string) {
+func c06Load(block []c06Line, second ...[]c06Line) (*casket.Instance, casket.Context, *httpserver.SiteConfig, string) {
 	var b strings.Builder
-	b.WriteString("a.test:8443 {\n  tls self_signed {\n")
-	for _, l := range block {
-		b.WriteString("    " + l.name)
-		for _, a := range l.args {
-			b.WriteString(" " + a)
+	site := func(addr string, block []c06Line) {
+		b.WriteString(addr + " {\n  tls self_signed {\n")
+		for _, l := range block {
+			b.WriteString("    " + l.name)
+			for _, a := range l.args {
+				b.WriteString(" " + a)
+			}
+			b.WriteString("\n")
 		}
-		b.WriteString("\n")
+		b.WriteString("  }\n}\n")
 	}
-	b.WriteString("  }\n}\n")
+	site("a.test:8443", block)
+	for _, blk := range second {
+		site("a.test:8443/admin", blk)
+	}
 	inst, ctx, err := casket.VerifC15Load(casket.CasketfileInput{Filepath: "Testfile", Contents: []byte(b.String()), ServerTypeName: "http"})
 	if err != nil {
 		m := err.Error()
@@ -135,7 +142,7 @@ func c06Load(block []c06Line) (*casket.Instance, casket.Context, *httpserver.Sit
 		return inst, ctx, nil, "err:" + cls
 	}
 	cfgs := httpserver.VerifC15Configs(ctx)
-	if len(cfgs) != 1 {
+	if len(cfgs) != 1+len(second) {
 		return inst, ctx, nil, fmt.Sprintf("config-count:%d", len(cfgs))
 	}
 	return inst, ctx, cfgs[0], ""
@@ -205,7 +212,7 @@ func c06SetupEval(f []string) (string, []string) {
 }
 
 func c06ListenerEval(f []string) (string, []string) {
-	if len(f) != 2 {
+	if len(f) != 3 {
 		return "bad-case", nil
 	}
 	if (f[0] == "1") != cpuid.CPU.AesNi() {
@@ -215,7 +222,15 @@ func c06ListenerEval(f []string) (string, []string) {
 	if !c06BlockTokensOK(block) {
 		return "bad-case:token", nil
 	}
-	inst, ctx, sc, e := c06Load(block)
+	var second [][]c06Line
+	if f[2] != "-" {
+		b2 := c06ParseBlock(f[2])
+		if !c06BlockTokensOK(b2) {
+			return "bad-case:token", nil
+		}
+		second = append(second, b2)
+	}
+	inst, ctx, sc, e := c06Load(block, second...)
 	defer inst.ShutdownCallbacks()
 	tags := []string{fmt.Sprintf("lines=%d", len(block))}
 	if e != "" {
@@ -389,9 +404,19 @@ func c06SetupGen(g *hx.Gen) {
 
 func c06ListenerGen(g *hx.Gen) {
 	aes := b01(cpuid.CPU.AesNi())
-	emit := func(ls ...c06Line) { g.Case(aes, c06EncBlock(ls)) }
+	emit := func(ls ...c06Line) { g.Case(aes, c06EncBlock(ls), "-") }
 	L := func(name string, args ...string) c06Line { return c06Line{name, args} }
 	emit()
+	// two sites on one host name (a.test and a.test/admin): their tls blocks must agree; every ordered pair
+	// of the client modes that need no CA file (none, request, require) and every other single-field difference
+	blocks := [][]c06Line{nil, {L("clients", "request")}, {L("clients", "require")}, {L("protocols", "tls1.2")},
+		{L("protocols", "tls1.2", "tls1.3")}, {L("protocols", "tls1.3")}, {L("ciphers", "ECDHE-ECDSA-AES128-GCM-SHA256")},
+		{L("curves", "P256")}, {L("curves", "X25519", "P256")}, {L("alpn", "h2")}, {L("insecure_disable_sni_matching")}}
+	for _, b1 := range blocks {
+		for _, b2 := range blocks {
+			g.Case(aes, c06EncBlock(b1), c06EncBlock(b2)) // "" = a second site with an empty block; "-" = no second site
+		}
+	}
 	protos := [][]string{nil, {"tls1.2"}, {"tls1.3"}, {"tls1.0", "tls1.1"}, {"tls1.0", "tls1.3"}, {"tls1.1", "tls1.2"}, {"tls1.0"}}
 	ciphers := [][]string{nil, {"ECDHE-ECDSA-AES128-GCM-SHA256"}, {"ECDHE-RSA-AES128-GCM-SHA256"}, {"ECDHE-ECDSA-AES256-CBC-SHA"},
 		{"ECDHE-RSA-AES256-GCM-SHA384", "ECDHE-ECDSA-AES128-CBC-SHA"}, {"RSA-AES128-CBC-SHA"}}
